@@ -18,6 +18,7 @@ except Exception as e:
 try:
     import cwrap2lean
     _t = cwrap2lean.gen_blas_safety(); cwrap2lean.gen_blas_driver(_t); cwrap2lean.gen_blas_foot(_t)
+    cwrap2lean.gen_base_safety()
     _tl = cwrap2lean.gen_lapack_safety(); cwrap2lean.gen_lapack_driver(_tl); cwrap2lean.gen_lapack_foot(_tl)
 except Exception as e:
     print('translate cwrap2lean: %s' % e); rc = 1
